@@ -106,6 +106,14 @@ CHECKS = {
             'crash: counts, population with fitness and generations are compared with the uninterrupted run, and both runs '
             'are continued (exact proposals for history-determined algorithms).',
             BASE_NOTE),
+    'C19': ('E2-enum', 'model_checking',
+            'bounded-exhaustive enumeration of generated programs (construct x host position, nested two deep) x permission subsets, differential against plain exec',
+            'Every gated construct kind in every syntactic position of every host construct (hosts nested two deep, ~17k '
+            'programs) under the covering permission subsets (quick) or all 256 subsets (thorough), passed as argument and '
+            'as scope: a missing permission must produce a validation CodeError with an untouched sentinel; a granted '
+            'program must yield the intermediates and stdout of plain exec; 343 nestings of three permission scopes never '
+            'widen the outer one; runtime errors are wrapped with cause and line.',
+            BASE_NOTE),
     'C02': ('E1-statespace', 'model_checking',
             'explicit-state BFS to closure over the real pg.List/pg.Dict with a lock-step plain list/dict reference model',
             'Every (reachable content, operation) pair over the list/dict API menu with all indices/slices/steps within '
